@@ -53,6 +53,9 @@ func schema(quant string) models.IndexSchema {
 var stored, queries = sl.VectorPool(models.DistanceEuclidean)
 var hstored, hqueries = sl.VectorPool(models.DistanceHamming)
 
+// two 40000-byte values that differ in their last byte only
+var longA, longB = strings.Repeat("a", 39999) + "A", strings.Repeat("a", 39999) + "B"
+
 func doc(i int) sl.Doc {
 	return sl.Doc{"vec": stored[i%8], "flat": stored[(i+3)%8], "ham": hstored[i%8], "txt": []string{"quick brown fox", "quick quick dog", "lazy dog", "zebra fox"}[i%4], "s": []string{"Ab", "aB", "b"}[i%3], "tags": []string{"x", fmt.Sprintf("t%d", i%2)}, "a": int64(i%3 - 1), "f": float64(i) / 2}
 }
@@ -79,6 +82,12 @@ func symbols() *sl.Symbols {
 		sl.Op{Name: "ins1(again)", Kind: "ins", Ids: []int{1}, Docs: []sl.Doc{doc(4)}},
 		// the same batches meeting a storage error after the index work is done
 		// (the counters are written last): they must leave no trace in any cache
+		// indexed string values longer than the file backend's key size (bbolt: 32768 bytes): the file backend
+		// may refuse such a batch, the in-memory backend does not - an implementation-only failure that the
+		// model leaves out: if the file-backed members refuse, the history simply does not contain the batch
+		// (and the in-memory members are not given it); if they accept, everybody must answer alike
+		sl.Op{Name: "ins10(40000-byte string A) !store-may-refuse", Kind: "ins", Ids: []int{10}, Docs: []sl.Doc{{"s": longA, "note": "long"}}},
+		sl.Op{Name: "ins11(40000-byte string B) !store-may-refuse", Kind: "ins", Ids: []int{11}, Docs: []sl.Doc{{"s": longB, "note": "long"}}},
 		sl.Op{Name: "del2,3 !storage-fault", Kind: "del", Ids: []int{2, 3}},
 		sl.Op{Name: "ins6 !storage-fault", Kind: "ins", Ids: []int{6}, Docs: []sl.Doc{doc(6)}},
 		sl.Op{Name: "upd3(text,vec) !storage-fault", Kind: "upd", Ids: []int{3}, Docs: []sl.Doc{{"txt": "quick zebra", "vec": stored[7]}}},
@@ -100,6 +109,8 @@ type system struct {
 	quant    string
 	terminal bool
 	applied  []sl.Op
+	// refusedByStore counts batches the file backend refused for its key size (left out of the history)
+	refusedByStore int
 }
 
 func factory(raw json.RawMessage) (seqx.System, error) {
@@ -147,6 +158,54 @@ func (s *system) Apply(raw json.RawMessage) []seqx.Viol {
 			mb.in.Search(models.Query{Property: "vec", VectorVamana: &models.SearchVectorVamanaOptions{Vector: queries[1], Operator: models.OperatorNear, SearchSize: 75, Limit: 3}}, nil, 0)
 			mb.in.Search(models.Query{Property: "txt", Text: &models.SearchTextOptions{Value: "quick fox", Operator: models.OperatorContainsAny, Limit: 3}}, nil, 0)
 			mb.in.Search(models.Query{Property: "s", String: &models.SearchStringOptions{Value: "a", Operator: models.OperatorGreaterThan}}, nil, 0)
+		}
+		fmt.Fprintf(os.Stderr, "@@J-OK %s\n", op.Name)
+		s.applied = append(s.applied, op)
+		return nil
+	}
+	if strings.HasSuffix(op.Name, "!store-may-refuse") {
+		if _, stored := s.m.Docs[op.Ids[0]]; stored {
+			return nil // already in the history: the plain duplicate-id rejection is covered elsewhere
+		}
+		fmt.Fprintf(os.Stderr, "@@J-APPLY %s\n", op.Name)
+		refused, accepted := 0, 0
+		var firstErr error
+		for _, mb := range s.members {
+			if mb.in.Cfg.Backend == "mem" {
+				continue
+			}
+			got := mb.in.ApplySettled(op)
+			if got.Err != nil {
+				refused++
+				firstErr = got.Err
+				if !strings.Contains(got.Err.Error(), "key too large") {
+					return []seqx.Viol{{Sig: "rejected-batch-that-must-be-accepted", Detail: fmt.Sprintf("%s: %s refused for a reason other than the storage engine's key size: %v", mb.name, op.Name, got.Err)}}
+				}
+			} else {
+				accepted++
+			}
+			if sig, detail := sl.LateViolation(op, got); sig != "" {
+				return []seqx.Viol{{Sig: sig, Detail: mb.name + ": " + detail}}
+			}
+		}
+		if refused > 0 && accepted > 0 {
+			return []seqx.Viol{{Sig: "file-backed-members-disagree-on-acceptance", Detail: fmt.Sprintf("%s: %d file-backed members accepted, %d refused (%v)", op.Name, accepted, refused, firstErr)}}
+		}
+		if refused > 0 {
+			// not part of the history of successful batches: the model and the in-memory members stay as they are
+			fmt.Fprintf(os.Stderr, "@@J-FAILED %s\n", op.Name)
+			s.refusedByStore++
+			return nil
+		}
+		exp := s.m.Apply(op)
+		for _, mb := range s.members {
+			if mb.in.Cfg.Backend != "mem" {
+				continue
+			}
+			got := mb.in.ApplySettled(op)
+			if sig, detail := sl.CompareResult(op, exp, got); sig != "" {
+				return []seqx.Viol{{Sig: sig, Detail: mb.name + ": " + detail}}
+			}
 		}
 		fmt.Fprintf(os.Stderr, "@@J-OK %s\n", op.Name)
 		s.applied = append(s.applied, op)
@@ -248,6 +307,13 @@ func (s *system) battery(name string, in *sl.Inst) {
 	// filters
 	var qs []models.Query
 	qs = append(qs, sl.StringLeaves("s", []string{"ab", "B"})...)
+	for _, d := range s.m.Docs {
+		if v, _ := d["s"].(string); len(v) > 1000 {
+			// a long value is stored: ask for it, for its sibling and for a prefix beyond the key size
+			qs = append(qs, sl.StringLeaves("s", []string{longA, longB, longA[:33000]})...)
+			break
+		}
+	}
 	qs = append(qs, sl.IntLeaves("a", []int64{-1, 0, 1})...)
 	qs = append(qs, sl.FloatLeaves("f", []float64{0, 1.5})...)
 	qs = append(qs, sl.ArrayLeaves("tags", []string{"x", "t1"})...)
@@ -400,7 +466,7 @@ func (s *system) Close() {
 }
 
 func master(cfg *harness.Config, rep *harness.Report) {
-	rep.Rule = "every write history up to the depth over the union of the point / filter / flat / text / graph write alphabets on a nine-index schema (without quantiser, with a learned binary quantiser, with a product quantiser trained at 3 points: each instance learns its own centroids and is compared with its own read-back reference), executed in lock-step on six instances: bbolt with unlimited, 1-byte and disabled shared cache, bbolt closed and reopened with a fresh cache manager after every batch, and memstore with unlimited and with disabled cache (successful batches only). After every batch every instance answers the whole battery (reads by id, select-all, raw point store, ~100 filter queries, exact flat k-NN on two indexes, text tf-idf, graph search safety + exact regimes, graph well-formedness) and must equal the reference model, hence each other; whether a quantiser has been trained (and the binary quantiser's learned threshold) must be the same on all instances; a `queries` step between batches warms the caches inside a history; on the reopened instance the bucket dump before close, after reopen and after the queries must be identical"
+	rep.Rule = "every write history up to the depth over the union of the point / filter / flat / text / graph write alphabets on a nine-index schema (without quantiser, with a learned binary quantiser, with a product quantiser trained at 3 points: each instance learns its own centroids and is compared with its own read-back reference), executed in lock-step on six instances: bbolt with unlimited, 1-byte and disabled shared cache, bbolt closed and reopened with a fresh cache manager after every batch, and memstore with unlimited and with disabled cache (successful batches only; one spec inserts 40000-byte indexed strings, which the file backend may refuse for its key size - then they are not part of the history - and which, if accepted, every instance must answer alike, incl. queries for the value, its sibling that differs in the last byte and a 33000-byte prefix). After every batch every instance answers the whole battery (reads by id, select-all, raw point store, ~100 filter queries, exact flat k-NN on two indexes, text tf-idf, graph search safety + exact regimes, graph well-formedness) and must equal the reference model, hence each other; whether a quantiser has been trained (and the binary quantiser's learned threshold) must be the same on all instances; a `queries` step between batches warms the caches inside a history; on the reopened instance the bucket dump before close, after reopen and after the queries must be identical"
 	rep.Assumptions = []string{"approximate graph answers outside the exact regimes are not compared across instances (entry vector and reuse order are random)", "bbolt commit atomicity and fsync are trusted"}
 	p := pool.New(pool.Options{CPUsPerWorker: 2, JobTimeout: 120 * time.Second})
 	syms := symbols()
@@ -416,10 +482,19 @@ func master(cfg *harness.Config, rep *harness.Report) {
 	if !cfg.Quick() {
 		depth = 4
 	}
+	var main []any
+	for _, r := range syms.Refs() {
+		if b, _ := json.Marshal(r); !strings.Contains(string(b), "!store-may-refuse") {
+			main = append(main, r)
+		}
+	}
 	specs := []seqx.Spec{
-		{Name: "lockstep/no-quantiser", Cfg: cfgT{"none"}, Alphabet: syms.Refs(), Depth: depth},
-		{Name: "lockstep/learned-binary-quantiser", Cfg: cfgT{"binlearned"}, Alphabet: syms.Refs(), Depth: depth},
-		{Name: "lockstep/product-quantiser", Cfg: cfgT{"product"}, Alphabet: syms.Refs(), Depth: depth},
+		{Name: "lockstep/no-quantiser", Cfg: cfgT{"none"}, Alphabet: main, Depth: depth},
+		{Name: "lockstep/learned-binary-quantiser", Cfg: cfgT{"binlearned"}, Alphabet: main, Depth: depth},
+		{Name: "lockstep/product-quantiser", Cfg: cfgT{"product"}, Alphabet: main, Depth: depth},
+		// string values beyond the file backend's key size: refused there today (then the history does not
+		// contain them), and if a backend ever accepts them every instance must answer alike
+		{Name: "lockstep/no-quantiser/long-strings", Cfg: cfgT{"none"}, Alphabet: syms.Refs("ins1", "ins10(40000-byte string A) !store-may-refuse", "ins11(40000-byte string B) !store-may-refuse", "upd1(all fields)", "del1", "queries(between batches)"), Depth: 3},
 	}
 	seqx.Explore(cfg, rep, p, specs)
 }
